@@ -17,4 +17,10 @@ for hx, delay in plan.get('stderr_chunks', []):
     while data:
         n = os.write(2, data)
         data = data[n:]
+if plan.get('close_stderr'):
+    # the program lets go of its stderr (redirects it to a log file) and keeps running
+    devnull = os.open(os.devnull, os.O_WRONLY)
+    os.dup2(devnull, 2)
+if plan.get('linger_ms'):
+    time.sleep(plan['linger_ms'] / 1000.0)
 os._exit(plan.get('exit', 0))
